@@ -450,6 +450,45 @@ def C06_statement (impl : Impl) (dim : Nat) : Prop :=
     ∀ T T' run run', 1 ≤ T → T ≤ 16 → 1 ≤ T' → T' ≤ 16 →
       normal algo (impl.out algo inp T run) = normal algo (impl.out algo inp T' run')
 
+/-- What IS proved of `C06_statement`, in one place: under exact arithmetic each
+parallel construct of the code yields the same value under any two schedules
+(split trees `t t'`, store orders `ws ws'`).  Missing for the full statement: a
+model of rayon (that every run is an instance of these skeletons) and of the
+sequential glue between the parallel calls. -/
+theorem C06_partial :
+    (∀ t t' xs, parSum t xs = parSum t' xs) ∧
+    (∀ (p : Int → Bool) t t' xs, parCount p t xs = parCount p t' xs) ∧
+    (∀ hi lo t t' xs, parBBox hi lo t xs = parBBox hi lo t' xs) ∧
+    (∀ ci cj t t' pts, parInertiaEntry ci cj t pts = parInertiaEntry ci cj t' pts) ∧
+    (∀ target t t' xs, (parNearest target t xs).count = (parNearest target t' xs).count ∧
+      (parNearest target t xs).weight = (parNearest target t' xs).weight ∧
+      (parNearest target t xs).dist = (parNearest target t' xs).dist) ∧
+    (∀ (bucket : Nat → Nat) n t t' xs,
+      parPartWeights bucket n t xs = parPartWeights bucket n t' xs) ∧
+    (∀ t t' ws thrB thrW, (∀ w ∈ ws, 0 ≤ w) → 0 ≤ thrB → thrB ≤ thrW →
+      mjSplit t ws thrB thrW = mjSplit t' ws thrB thrW) ∧
+    (∀ (a : List Nat) ws ws', (ws.map (·.1)).Nodup → ws.Perm ws' →
+      disjointWrites a ws = disjointWrites a ws') := by
+  refine ⟨?_, ?_, ?_, ?_, ?_, ?_, ?_, ?_⟩
+  · intro t t' xs
+    rw [parSum_schedule_free, parSum_schedule_free]
+  · intro p t t' xs
+    rw [parCount_schedule_free, parCount_schedule_free]
+  · intro hi lo t t' xs
+    rw [parBBox_schedule_free, parBBox_schedule_free]
+  · intro ci cj t t' pts
+    rw [inertia_entry_schedule_free, inertia_entry_schedule_free]
+  · intro target t t' xs
+    have h := nearest_reduce_schedule_free target t t' xs
+    exact ⟨h.1, h.2.1, h.2.2.1⟩
+  · intro bucket n t t' xs
+    exact (hilbert_partweights_schedule_free bucket n t t' xs).1
+  · intro t t' ws thrB thrW hnn h0 hBW
+    rw [mj_split_blocks_schedule_free t ws thrB thrW hnn h0 hBW,
+      mj_split_blocks_schedule_free t' ws thrB thrW hnn h0 hBW]
+  · intro a ws ws' hn hp
+    exact disjointWrites_comm a ws ws' hn hp
+
 /-- Non-vacuity of `ExactSums`: a symmetric cloud with centroid 0 and a
 diagonal inertia matrix with well separated entries (the shape of the harness'
 "exact-frame" stream). -/
@@ -490,3 +529,4 @@ end Coupe.Par
 #print axioms Coupe.Par.hilbert_partweights_schedule_free
 #print axioms Coupe.Par.mj_split_blocks_schedule_free
 #print axioms Coupe.Par.mj_splits_schedule_free
+#print axioms Coupe.Par.C06_partial
